@@ -1,4 +1,347 @@
-import Model.Template
+import Proofs.Lemmas.Template
 import Proofs.Audit
-theorem C02_placeholder : True := trivial
-assert_axioms C02_placeholder
+
+/-!
+# C02 — file names generated from a template parse back to the same times and attributes
+
+Property theorems only (helper lemmas: `Proofs/Lemmas/{Digits,Time,Template}.lean`).
+Model: `Model/{Digits,Time,Template}.lean`.  All statements are for arbitrary templates of
+the stated shape, arbitrary valid datetimes (year 1000..9999, resp. 1965..2064 with `year2`)
+— no bound on the template length.
+-/
+
+open Template Time Digits
+
+/-! ### Digits and calendar -/
+
+/-- zero-padded decimal text parses back and has exactly the field width -/
+theorem C02_parse_pad (w n : Nat) (hw : 0 < w) (h : n < 10 ^ w) :
+    parseNat (pad w n) = some n ∧ (pad w n).length = w :=
+  ⟨parseNat_pad w n, pad_length w n hw h⟩
+
+/-- day-of-year round trip for every valid date (leap day, doy 366 included) -/
+theorem C02_ofYearDoy_doyOf (t : DateTime) (h : Valid t) :
+    ofYearDoy t.y (doyOf t.y t.mo t.d) = some (t.y, t.mo, t.d) :=
+  ofYearDoy_doyOf _ _ _ ((valid_iff t).1 h).1
+
+/-- `toMicros` is strictly monotone w.r.t. the lexicographic order of the 7-tuples … -/
+theorem C02_toMicros_strictMono (a b : DateTime) (ha : Valid a) (hb : Valid b) :
+    lexLt a b → toMicros a < toMicros b := toMicros_strictMono a b ha hb
+
+/-- … and the model's `<` (on `toMicros`) is exactly CPython's tuple comparison … -/
+theorem C02_lt_iff_lex (a b : DateTime) (ha : Valid a) (hb : Valid b) :
+    lt a b = true ↔ lexLt a b := lt_iff_lex a b ha hb
+
+/-- … and `ofMicros` inverts it on valid datetimes -/
+theorem C02_ofMicros_toMicros (t : DateTime) (h : Valid t) : ofMicros (toMicros t) = some t :=
+  ofMicros_toMicros t h
+
+/-- two-digit years: threshold 65, round trip on 1965..2064 -/
+theorem C02_expandYear2_roundtrip (y : Nat) (h1 : 1965 ≤ y) (h2 : y ≤ 2064) :
+    expandYear2 (y % 100) = y := expandYear2_mod y h1 h2
+
+/-! ### Names → placeholder strings -/
+
+/-- **fields recovered** (fixed-width fragment: literals without regex syntax and the temporal
+placeholders `get_filename` fills; repeated placeholders, directory separators, dots allowed):
+the generated name exists, is parsed, and every placeholder of the template is recovered with
+the string it was written with (`keyStr`), in order of first occurrence (`capsOf`). -/
+theorem C02_fields_recovered (cfg : Cfg) (ctx : Ctx) (hfix : ∀ t ∈ cfg.path, FixedTok t)
+    (hs : GoodTime ctx.s) (he : GoodTime ctx.e) :
+    ∃ name, format cfg cfg.path ctx = .ok name ∧
+      parseFilename cfg name = .ok (capsOf ctx cfg.path []) ∧
+      ∀ k, Tok.ph k ∈ cfg.path → (capsOf ctx cfg.path []).lookup k = some (keyStr ctx k) := by
+  obtain ⟨items, ps, h1, h2, h3, h4, h5⟩ := compile_pieces_fixed cfg ctx hs he cfg.path [] hfix
+  refine ⟨ps.flatten, ?_, ?_, ?_⟩
+  · unfold format
+    simp only [h2]
+    have : ps.flatten.any special = false := by
+      rw [List.any_eq_false]; intro c hc; simp [h5 c hc]
+    simp [this]
+  · unfold parseFilename
+    simp only [h1, matchItems_det items ps h3, h4]
+  · intro k hk
+    rw [lookup_capsOf]; simp [hk]
+
+/-- **no mis-parse** (matcher soundness, whole fragment incl. lazy / alternation / class items):
+an accepted name *is* an instantiation of the compiled template — it splits into one string per
+token, each in the language of its token — and the captures are exactly the strings at the
+capturing tokens.  (`$` also accepts one trailing newline, as Python's `re` does.) -/
+theorem C02_no_misparse (cfg : Cfg) (name : List Char) (caps : Caps)
+    (h : parseFilename cfg name = .ok caps) :
+    ∃ items ps, compile cfg cfg.path [] = .ok items ∧ Inst items ps ∧
+      (name = ps.flatten ∨ name = ps.flatten ++ ['\n']) ∧ caps = capsFrom items ps := by
+  unfold parseFilename at h
+  cases hc : compile cfg cfg.path [] with
+  | error e => simp [hc] at h
+  | ok items =>
+    simp only [hc] at h
+    cases hm : matchItems items name with
+    | none => simp [hm] at h
+    | some c =>
+      simp only [hm, Except.ok.injEq] at h
+      subst h
+      obtain ⟨ps, h1, h2, h3⟩ := matchItems_sound items name c hm
+      exact ⟨items, ps, rfl, h1, h2, h3⟩
+
+/-- a name that does not match is rejected with ValueError by `parse_filename` and by
+`get_info` (modes filename and both), never parsed into something else -/
+theorem C02_rejected (cfg : Cfg) (name : List Char) (items : List (Item × Option Key))
+    (hc : compile cfg cfg.path [] = .ok items) (hm : matchItems items name = none)
+    (tc : Option Int) (h : Info) :
+    parseFilename cfg name = .error .valueError ∧
+      getInfo cfg .filename tc h name = .error .valueError ∧
+      getInfo cfg .both tc h name = .error .valueError := by
+  have hp : parseFilename cfg name = .error .valueError := by
+    unfold parseFilename; simp [hc, hm]
+  refine ⟨hp, ?_, ?_⟩ <;> simp [getInfo, hp]
+
+/-! ### Unknown / unfilled placeholders -/
+
+theorem pieces_error (cfg : Cfg) (ctx : Ctx) :
+    ∀ tpl : List Tok, (∃ t ∈ tpl, ∃ e, piece cfg ctx t = .error e) →
+      pieces cfg ctx tpl = .error .unknownPlaceholder := by
+  have hp : ∀ t e, piece cfg ctx t = .error e → e = .unknownPlaceholder := by
+    intro t e h
+    cases t with
+    | lit c => simp [piece] at h
+    | star => simp [piece] at h
+    | ph k =>
+      cases k with
+      | time isEnd f => cases f <;> simp [piece, timePiece] at h <;> exact h.symm
+      | user n =>
+        simp only [piece] at h
+        split at h
+        · simp at h
+        · split at h <;> simp at h
+          exact h.symm
+  intro tpl
+  induction tpl with
+  | nil => rintro ⟨t, ht, _⟩; simp at ht
+  | cons t ts ih =>
+    rintro ⟨t', ht', e, he⟩
+    simp only [pieces]
+    cases hpt : piece cfg ctx t with
+    | error e' => rw [hp t e' hpt]
+    | ok p =>
+      simp only [List.mem_cons] at ht'
+      rcases ht' with rfl | ht'
+      · rw [hpt] at he; simp at he
+      · rw [ih ⟨t', ht', e, he⟩]
+
+/-- a placeholder `get_filename` has no value for (decisecond / centisecond / microsecond, or a
+user name that is neither declared, part of the path, nor filled) raises
+UnknownPlaceholderError — whatever else the template contains -/
+theorem C02_unknown_placeholder (cfg : Cfg) (tpl : List Tok) (ctx : Ctx)
+    (h : ∃ t ∈ tpl, ∃ e, piece cfg ctx t = .error e) :
+    format cfg tpl ctx = .error .unknownPlaceholder := by
+  unfold format; rw [pieces_error cfg ctx tpl h]
+
+/-- when every placeholder has a value but a special character survives in the name
+(a `*`, an unfilled user placeholder whose regex shows through, a special literal),
+UnfilledPlaceholderError is raised -/
+theorem C02_unfilled_placeholder (cfg : Cfg) (tpl : List Tok) (ctx : Ctx) (ps : List (List Char))
+    (hp : pieces cfg ctx tpl = .ok ps) (h : ∃ c ∈ ps.flatten, special c = true) :
+    format cfg tpl ctx = .error .unfilledPlaceholder := by
+  unfold format; simp only [hp]
+  have : ps.flatten.any special = true := by
+    rw [List.any_eq_true]; exact h
+  simp [this]
+
+/-! ### Placeholder strings → times -/
+
+/-- placeholders of the path: start fields / end fields -/
+def Ps (cfg : Cfg) (f : TField) : Bool := cfg.path.contains (.ph (.time false f))
+def Pe (cfg : Cfg) (f : TField) : Bool := cfg.path.contains (.ph (.time true f))
+
+/-- **the datetime arguments are recovered**: for a fixed-width template whose start fields name
+a full date, the name generated for `(s, e)` is parsed and `_retrieve_time_coverage` works on
+exactly the standardised fields of `s` and `e` (`stdOf`: year from year/year2, month/day from
+month+day/doy, millisecond ↦ µs). -/
+theorem C02_args_recovered (cfg : Cfg) (ctx : Ctx) (hfix : ∀ t ∈ cfg.path, FixedTok t)
+    (hs : GoodTime ctx.s) (he : GoodTime ctx.e)
+    (hsok : StdOK (Ps cfg) ctx.s) (heok : StdOK (Pe cfg) ctx.e) (hdate : HasDate (Ps cfg)) :
+    ∃ name caps, format cfg cfg.path ctx = .ok name ∧ parseFilename cfg name = .ok caps ∧
+      retrieveTimeCoverage cfg caps =
+        coverageOf cfg.path (stdOf (Ps cfg) ctx.s) (stdOf (Pe cfg) ctx.e) := by
+  obtain ⟨name, h1, h2, h3⟩ := C02_fields_recovered cfg ctx hfix hs he
+  refine ⟨name, _, h1, h2, ?_⟩
+  have hraw : ∀ isEnd, fieldVal (capsOf ctx cfg.path []) isEnd =
+      rawOf (if isEnd then Pe cfg else Ps cfg) (if isEnd then ctx.e else ctx.s) := by
+    intro isEnd
+    funext f
+    rw [fieldVal_capsOf ctx hs he cfg.path hfix isEnd f]
+    cases isEnd <;> simp [rawOf, Ps, Pe]
+  have hne : (capsOf ctx cfg.path []).isEmpty = false := by
+    obtain ⟨hy, _⟩ := hdate
+    have : ∃ k, Tok.ph k ∈ cfg.path := by
+      rcases hy with h | h
+      · exact ⟨_, by simpa [Ps] using h⟩
+      · exact ⟨_, by simpa [Ps] using h⟩
+    obtain ⟨k, hk⟩ := this
+    have := h3 k hk
+    cases hc : capsOf ctx cfg.path [] with
+    | nil => rw [hc] at this; simp at this
+    | cons a b => rfl
+  unfold retrieveTimeCoverage
+  simp only [hne, capsNumeric_capsOf ctx hs he cfg.path [] hfix, Bool.false_eq_true, ↓reduceIte,
+    Bool.not_true]
+  unfold toDatetimeArgs
+  have h0 := hraw false
+  have h1' := hraw true
+  simp only [Bool.false_eq_true, ↓reduceIte] at h0 h1'
+  rw [h0, h1', standardise_rawOf _ _ hs.1 hsok, standardise_rawOf _ _ he.1 heok]
+  have hy : (stdOf (Ps cfg) ctx.s).year.isSome = true := by
+    obtain ⟨hy, _⟩ := hdate
+    rcases hy with h | h <;> simp [stdOf, h]
+  simp [hy]
+
+/-- **start round trip**: whatever the end fields are, when the time coverage is computed its
+start is `s` cut to the template's resolution … -/
+theorem C02_start_roundtrip (path : List Tok) (P : TField → Bool) (s : DateTime) (ea : Std)
+    (hv : Valid s) (hd : HasDate P) (st en : Option DateTime)
+    (h : coverageOf path (stdOf P s) ea = .ok (st, en)) : st = some (truncTo P s) := by
+  unfold coverageOf at h
+  simp only [stdOf_nonEmpty P s hd, mkDate_stdOf P s hv hd, ↓reduceIte] at h
+  split at h
+  · split at h
+    · simp at h
+    · split at h
+      · split at h
+        · simp at h
+        · split at h
+          · simp only [Except.ok.injEq, Prod.mk.injEq] at h; exact h.1.symm
+          · simp at h
+      · simp only [Except.ok.injEq, Prod.mk.injEq] at h; exact h.1.symm
+  · simp only [Except.ok.injEq, Prod.mk.injEq] at h; exact h.1.symm
+
+/-- … which is `s` itself when `s` is given at the template's resolution -/
+theorem C02_truncTo_id (P : TField → Bool) (s : DateTime)
+    (h1 : P .hour = false → s.h = 0) (h2 : P .minute = false → s.mi = 0)
+    (h3 : P .second = false → s.s = 0) (h4 : P .millisecond = false → s.us = 0)
+    (h5 : s.us % 1000 = 0) : truncTo P s = s := by
+  cases s with
+  | mk y mo d h mi sec us =>
+    simp only [truncTo, DateTime.mk.injEq, true_and]
+    simp only at h1 h2 h3 h4 h5
+    refine ⟨?_, ?_, ?_, ?_⟩
+    · cases hP : P .hour <;> simp [hP] at h1 ⊢; exact h1.symm
+    · cases hP : P .minute <;> simp [hP] at h2 ⊢; exact h2.symm
+    · cases hP : P .second <;> simp [hP] at h3 ⊢; exact h3.symm
+    · cases hP : P .millisecond <;> simp [hP] at h4 ⊢
+      · exact h4.symm
+      · omega
+
+/-- **no end fields**: the file name yields only the start -/
+theorem C02_end_default (path : List Tok) (P : TField → Bool) (s : DateTime) (ea : Std)
+    (hv : Valid s) (hd : HasDate P) (hea : ea.nonEmpty = false) :
+    coverageOf path (stdOf P s) ea = .ok (some (truncTo P s), none) := by
+  unfold coverageOf
+  simp only [stdOf_nonEmpty P s hd, mkDate_stdOf P s hv hd, hea, ↓reduceIte, Bool.false_eq_true]
+
+theorem stdOf_empty (P : TField → Bool) (t : DateTime) (h : ∀ f, P f = false) :
+    (stdOf P t).nonEmpty = false := by
+  simp [stdOf, Std.nonEmpty, h]
+
+/-- **end spelled out as completely as the start**: the end fields name a full date and every
+time field the start names; then the parsed end is `e` (cut to the end fields' resolution),
+provided it does not precede the start -/
+theorem C02_end_full (path : List Tok) (P Q : TField → Bool) (s e : DateTime)
+    (hvs : Valid s) (hve : Valid e) (hdP : HasDate P) (hdQ : HasDate Q)
+    (hsub : P .hour = true → Q .hour = true) (hsub2 : P .minute = true → Q .minute = true)
+    (hsub3 : P .second = true → Q .second = true)
+    (hsub4 : P .millisecond = true → Q .millisecond = true)
+    (hle : lt (truncTo Q e) (truncTo P s) = false) :
+    coverageOf path (stdOf P s) (stdOf Q e) = .ok (some (truncTo P s), some (truncTo Q e)) := by
+  have hmerge : (stdOf P s).merge (stdOf Q e) = stdOf Q e := by
+    obtain ⟨hy, hmd⟩ := hdQ
+    have e1 : (Q .year2 || Q .year) = true := by rcases hy with h | h <;> simp [h]
+    have e2 : (Q .doy || Q .month) = true := by rcases hmd with ⟨h, _⟩ | h <;> simp [h]
+    have e3 : (Q .doy || Q .day) = true := by rcases hmd with ⟨_, h⟩ | h <;> simp [h]
+    simp only [Std.merge, stdOf, e1, e2, e3, ↓reduceIte]
+    cases h1 : Q .hour <;> cases h2 : Q .minute <;> cases h3 : Q .second <;>
+      cases h4 : Q .millisecond <;> cases h5 : P .hour <;> cases h6 : P .minute <;>
+      cases h7 : P .second <;> cases h8 : P .millisecond <;> simp_all
+  unfold coverageOf
+  simp only [stdOf_nonEmpty P s hdP, mkDate_stdOf P s hvs hdP, stdOf_nonEmpty Q e hdQ, hmerge,
+    mkDate_stdOf Q e hve hdQ, hle, ↓reduceIte, Bool.false_eq_true]
+
+/-! ### get_info -/
+
+/-- `get_info` in mode *filename* for a multi-file template whose name yields a start:
+the end is the parsed end, else `start + time_coverage`, else the start (discrete files) -/
+theorem C02_getInfo_filename (cfg : Cfg) (tc : Option Int) (h : Info) (name : List Char)
+    (caps : Caps) (st : DateTime) (en : Option DateTime)
+    (hsingle : singleFile cfg.path = false)
+    (hp : parseFilename cfg name = .ok caps)
+    (hr : retrieveTimeCoverage cfg caps = .ok (some st, en)) :
+    getInfo cfg .filename tc h name =
+      match en with
+      | some e => .ok (st, e, attrUpdate [] (userCaps caps))
+      | none =>
+        match tc with
+        | some δ =>
+          match addDelta st δ with
+          | .ok e => .ok (st, e, attrUpdate [] (userCaps caps))
+          | .error err => .error err
+        | none => .ok (st, st, attrUpdate [] (userCaps caps)) := by
+  unfold getInfo
+  simp only [hsingle, hp, hr, Info.update]
+  cases en <;> first | rfl | simp
+
+/-- **handler information overrides the file name** (`info_via = "both"`): times the handler
+reports replace the parsed ones, its attributes are written over the parsed ones -/
+theorem C02_handler_overrides (cfg : Cfg) (tc : Option Int) (name : List Char) (caps : Caps)
+    (st en : Option DateTime) (hs he : DateTime) (ha : Attrs)
+    (hp : parseFilename cfg name = .ok caps)
+    (hr : retrieveTimeCoverage cfg caps = .ok (st, en)) :
+    getInfo cfg .both tc { start := some hs, stop := some he, attrs := ha } name =
+      .ok (hs, he, attrUpdate (attrUpdate [] (userCaps caps)) ha) := by
+  unfold getInfo
+  cases hsf : singleFile cfg.path <;> simp [hp, hr, Info.update]
+
+/-- a handler that reports nothing leaves the parsed information untouched -/
+theorem C02_handler_silent (a : Info) : a.update {} = a := by
+  cases a; simp [Info.update, attrUpdate]
+
+/-! ### Non-vacuity and executable sanity tests (tests, not theorems) -/
+
+section Examples
+
+def exPath : List Tok :=
+  [.lit '/', .ph (.time false .year2), .lit '/', .ph (.time false .doy), .lit '.',
+   .ph (.time false .hour), .ph (.time false .minute), .lit '-', .ph (.time true .hour),
+   .ph (.time true .minute), .lit '_', .ph (.time false .year2), .lit '.', .lit 'n', .lit 'c']
+
+def exCfg : Cfg := { path := exPath }
+def exS : DateTime := { y := 2016, mo := 12, d := 31, h := 23, mi := 30 }
+def exE : DateTime := { y := 2017, mo := 1, d := 1, h := 0, mi := 15 }
+
+-- the hypotheses of the theorems above are satisfiable by a non-trivial template / period
+example : (∀ t ∈ exPath, FixedTok t) := by
+  simp [exPath, FixedTok, regexActive, special, fillable]
+example : GoodTime exS ∧ GoodTime exE := by unfold GoodTime Valid; decide
+example : StdOK (Ps exCfg) exS ∧ StdOK (Pe exCfg) exE ∧ HasDate (Ps exCfg) := by
+  unfold StdOK NoSub HasDate; decide
+-- an undeclared user placeholder without a fill (its default regex `.+?` contains `?`)
+example : format { path := [.lit 'a', .ph (.user "sat")] } [.lit 'a', .ph (.user "sat")]
+    { s := dtMin, e := dtMin } = .error .unfilledPlaceholder := by decide
+
+#guard format exCfg exPath { s := exS, e := exE } = .ok "/16/366.2330-0015_16.nc".toList
+#guard (parseFilename exCfg "/16/366.2330-0015_16.nc".toList).toOption.map (·.length) = some 6
+-- sub-day end rolls over to the next day (here also the next year)
+#guard getInfo exCfg .filename none {} "/16/366.2330-0015_16.nc".toList = .ok (exS, exE, [])
+#guard getInfo exCfg .filename none {} "/16/366.2330-0015_17.nc".toList = .ok (exS, exE, [])
+#guard getInfo exCfg .filename none {} "/16/366.2330-0015_16.nx".toList = .error .valueError
+-- year2 threshold, doy 366 in a leap year
+#guard expandYear2 64 = 2064 ∧ expandYear2 65 = 1965
+#guard matchItems [(.lazy 1, some (.user "a")), (.char '_', none), (.alt ["ab".toList, "abc".toList], some (.user "b")), (.char '.', none)]
+        "x_y_abc.".toList = some [(.user "a", "x_y".toList), (.user "b", "abc".toList)]
+
+end Examples
+
+assert_axioms C02_parse_pad C02_ofYearDoy_doyOf C02_toMicros_strictMono C02_lt_iff_lex
+  C02_ofMicros_toMicros C02_expandYear2_roundtrip C02_fields_recovered C02_no_misparse
+  C02_rejected C02_unknown_placeholder C02_unfilled_placeholder C02_args_recovered
+  C02_start_roundtrip C02_truncTo_id C02_end_default C02_end_full C02_getInfo_filename
+  C02_handler_overrides C02_handler_silent
